@@ -1435,6 +1435,17 @@ func (fv *FV) ghostBuiltin(e *Env, x *ast.CallExpr, fn *types.Func) Value {
 			break
 		}
 		return Value{K: kScalar, T: fv.valueEq(fv.spec.callArgs[n], fv.expr(e, x.Args[1]))}
+	case "gh_argAs":
+		// argAs[T](i): the i-th argument (0-based; receiver excluded) of the call a precall clause guards
+		iv := fv.expr(e, x.Args[0])
+		n, err := strconv.Atoi(iv.T.S)
+		if err != nil || fv.spec == nil || fv.spec.callArgs == nil || n < 0 || n >= len(fv.spec.callArgs) {
+			fv.specErr("argAs: needs a literal index of an argument of the guarded call")
+			break
+		}
+		v := fv.spec.callArgs[n]
+		v.Type = rt
+		return v
 	case "gh_sameRef":
 		a, b := fv.expr(e, x.Args[0]), fv.expr(e, x.Args[1])
 		return Value{K: kScalar, T: eq(a.T, b.T)}
